@@ -57,6 +57,10 @@ def first_connections(rnd):
     for at in range(0, 6):
         for mech in ("break", "raise", "close", "with"):
             sc("abandoned-at-%d-%s" % (at, mech), [("data", 0, hs + E(1, b"one", fin=0)), ("data", 10, E(9, b"p")), ("timeout", 5120)], app={at: [("abandon", mech)]})
+    # the reconnecting idiom `events = ws.connect()`: the abandoned iterator of this connection is still referenced when the next
+    # connect() is made and is released only by that assignment
+    for at in range(0, 6):
+        sc("abandoned-at-%d-iterator-released-by-the-next-connect" % at, [("data", 0, hs + E(1, b"one", fin=0)), ("data", 10, E(9, b"p")), ("timeout", 5120)], app={at: [("abandon", "hold")]})
     return out
 
 
